@@ -15,6 +15,7 @@ import (
 	"reflect"
 	"strconv"
 	"strings"
+	"time"
 
 	"github.com/segmentio/encoding/json"
 )
@@ -176,6 +177,12 @@ func c15Number(c *Ctx, kind, text string, seed int64) {
 			return
 		}
 		x = f
+	case "duration":
+		n, err := strconv.ParseInt(text, 10, 64)
+		if err != nil {
+			return
+		}
+		x = []any{time.Duration(n), map[string]time.Duration{"d": time.Duration(-n)}}
 	case "[]int64":
 		n, err := strconv.ParseInt(text, 10, 64)
 		if err != nil {
@@ -218,6 +225,11 @@ func c15Numbers(c *Ctx) {
 			c15Number(c, "uint64", v.String(), c.Seed)
 		}
 		pow.Mul(pow, ten)
+	}
+	// durations are written as text of their own (h, m, s, ms, the two-byte micro sign, ns): one of each length and unit
+	for _, d := range []string{"0", "1", "-1", "999", "1000", "-123456", "123456", "999999", "1000000", "-999999999", "1000000000", "1500000000", "-61000000000",
+		"3599999999999", "3600000000000", "-86399999999999", "9223372036854775807", "-9223372036854775808", "-100001", "100000", "-999001"} {
+		c15Number(c, "duration", d, c.Seed)
 	}
 	for _, f := range []string{"1e20", "1e21", "999999999999999900000", "1e-6", "1e-7", "0.000001", "0.0000009999", "123456789.125", "-0", "5e-324", "1.7976931348623157e308", "100", "1e2", "12345678901234567890"} {
 		c15Number(c, "float64", f, c.Seed)
